@@ -302,7 +302,7 @@ func (w *IngressWorld) IngressStep(rs *ReqSpec) {
 		slack := lim.slack(now)
 		if st == http.StatusTooManyRequests {
 			w.Res.probe("ingress.429")
-			if slack > 1e-6 {
+			if slack = lim.slackHi(now); slack > 1e-6 {
 				w.add("C12.rate.unjustified429", "C12", loc, "429 although the limiter (rps=%g burst=%g) has room for this request (slack %.6f)", lim.rps, lim.burst, slack)
 			}
 			return
@@ -310,7 +310,7 @@ func (w *IngressWorld) IngressStep(rs *ReqSpec) {
 		if slack < -1e-6 {
 			w.add("C12.rate.exceeded", "C12", loc, "request admitted beyond burst + rps x window (rps=%g burst=%g, %d admitted since %s, slack %.6f)", lim.rps, lim.burst, len(lim.admitted), lim.t0.Format("15:04:05.000"), slack)
 		}
-		lim.admitted = append(lim.admitted, now)
+		lim.admit(now, now)
 		w.Res.probe("ingress.ratelimited.admitted")
 	} else if st == http.StatusTooManyRequests {
 		w.add("C12.rate.nolimiter", "C12", loc, "429 on a route without any rate limit")
@@ -663,8 +663,46 @@ func (w *IngressWorld) RaceStep(s Step) {
 		w.Res.logf("race: fewer than two buildable requests, skipped")
 		return
 	}
+	// The clock may move while the requests are in flight (s.D per scheduling
+	// decision): a request that has read the time can be overtaken by one that
+	// reads a later time. Only when nothing else in the step depends on time
+	// (no HMAC route among the racers, no reload).
+	tick := s.D
+	for _, r := range rc {
+		if r.rt != nil && r.rt.HMAC != nil {
+			tick = 0
+		}
+	}
+	if s.NewSpec != nil {
+		tick = 0
+	}
+	// The limiter's own notion of a request's time lies between the clock value the
+	// request read inside allowIngress (carried) and the instant it went through
+	// the limiter (passAt): with requests overtaking one another the two differ.
+	carried, passAt, passSeq := map[*Task]time.Time{}, map[*Task]time.Time{}, map[*Task]int{}
+	if tick > 0 {
+		var inside *Task
+		nPass := 0
+		w.Sched.OnRelease = func(t *Task, label string) {
+			inside = nil
+			if strings.HasPrefix(label, "app.runtimeState.allowIngress#") {
+				w.Clock.Advance(tick)
+				inside = t
+				nPass++
+				passSeq[t], passAt[t] = nPass, w.Clock.Peek()
+			}
+		}
+		w.Clock.OnRead(func(v time.Time) {
+			if inside != nil {
+				carried[inside] = v
+			}
+		})
+		defer func() { w.Sched.OnRelease = nil; w.Clock.OnRead(nil) }()
+		w.Res.probe("race.clock_moves")
+	}
 	w.Sched.SetArmed(func(l string) bool {
 		return strings.HasPrefix(l, "ingress.Server.ServeHTTP#") || strings.HasPrefix(l, "ingress.HMACAuth.Verify#") || strings.HasPrefix(l, "ingress.nonceCache.") ||
+			(tick > 0 && strings.HasPrefix(l, "app.runtimeState.allowIngress#")) ||
 			(s.NewSpec != nil && (strings.HasPrefix(l, "app.reloadConfig#") || strings.HasPrefix(l, "app.runtimeState.loadAuth#")))
 	})
 	w.Sched.DetectBlocked = true
@@ -744,7 +782,10 @@ func (w *IngressWorld) RaceStep(s Step) {
 		// not in one window, and which side a racer was on is not observable
 		w.armLimiters(now)
 	}
-	for _, r := range rc {
+	// in the order in which they went through the limiter
+	byPass := append([]*racer(nil), rc...)
+	sort.SliceStable(byPass, func(i, j int) bool { return passSeq[byPass[i].task] < passSeq[byPass[j].task] })
+	for _, r := range byPass {
 		if r.rt == nil || r.resp.Status == http.StatusTooManyRequests || reloadTask != nil {
 			continue
 		}
@@ -755,11 +796,21 @@ func (w *IngressWorld) RaceStep(s Step) {
 		if lim == nil {
 			continue
 		}
-		if slack := lim.slack(now); slack < -1e-6 {
+		// admitted at the instant it went through the limiter, if that was seen;
+		// else somewhere between the start of the race and now
+		lo, hi := now, w.Clock.Peek()
+		if at, ok := passAt[r.task]; ok {
+			lo, hi = at, at
+			if c, ok := carried[r.task]; ok && c.Before(at) {
+				lo = c
+				w.Res.probe("race.overtaken_at_limiter")
+			}
+		}
+		if slack := lim.slack(hi); slack < -1e-6 {
 			w.Res.probe("race.rate_exceeded")
 			w.add("C12.rate.exceeded", "C12", "ingress/race", "concurrent requests admitted beyond burst + rps x window (rps=%g burst=%g, %d admitted since %s, slack %.6f)", lim.rps, lim.burst, len(lim.admitted), lim.t0.Format("15:04:05.000"), slack)
 		}
-		lim.admitted = append(lim.admitted, now)
+		lim.admit(lo, hi)
 		w.Res.probe("race.ratelimited.admitted")
 	}
 	w.Res.logf("race of %d requests at %s -> %s (%d switches)", len(rc), now.Format("15:04:05"), strings.Join(sts, " "), w.Sched.Switches-sw0)
@@ -844,6 +895,19 @@ func (w *IngressWorld) RaceStep(s Step) {
 			w.add("C01.race.missing", "C01,C02", "ingress/race", "accepted answers stand for %d message(s) %q, the queue holds %d", n, k, got[k])
 		}
 	}
+	// the steps that follow judge against the queue as the race left it (the
+	// race's own effect on it has been judged above)
+	present := map[string]bool{}
+	for _, it := range after {
+		present[it.ID] = true
+	}
+	for id := range w.Model.Msgs {
+		if !present[id] {
+			delete(w.Model.Msgs, id)
+			w.Model.Gone[id] = "evicted"
+		}
+	}
+	w.adoptUnexpected(w.Clock.Peek())
 }
 
 func sortInts(a []int) { sort.Ints(a) }
